@@ -641,6 +641,36 @@ impl<'tcx> Cx<'tcx> {
             }
         } else if let (TyKind::Ref(_, inner, _), true) = (cty.kind(), !c.has_non_region_param()) {
             // promoted `&<int>` (assert_eq! operands): read the pointee from the const allocation
+            if let TyKind::Array(elem, n) = inner.kind() {
+                // small promoted byte/integer arrays such as `&[0]`
+                if elem.is_integral() {
+                    if let (Some(n), Ok(el)) = (n.try_to_target_usize(tcx), tcx.layout_of(env.as_query_input(*elem))) {
+                        let esz = el.size.bytes() as usize;
+                        if n <= 32 && esz >= 1 && esz <= 8 {
+                            if let Ok(ConstValue::Scalar(rustc_middle::mir::interpret::Scalar::Ptr(ptr, _))) = c.eval(tcx, env, span) {
+                                let (prov, off) = ptr.prov_and_relative_offset();
+                                if let Some(rustc_middle::mir::interpret::GlobalAlloc::Memory(mem)) = tcx.try_get_global_alloc(prov.alloc_id()) {
+                                    let alloc = mem.inner();
+                                    let o0 = off.bytes() as usize;
+                                    let total = esz * n as usize;
+                                    if o0 + total <= alloc.len() {
+                                        let bytes = alloc.inspect_with_uninit_and_ptr_outside_interpreter(o0..o0 + total);
+                                        let mut vals = vec![];
+                                        for i in 0..(n as usize) {
+                                            let mut v: u128 = 0;
+                                            for j in 0..esz {
+                                                v |= (bytes[i * esz + j] as u128) << (8 * j);
+                                            }
+                                            vals.push(J::Int(v as i128));
+                                        }
+                                        o.set("deref_array", J::Arr(vals));
+                                    }
+                                }
+                            }
+                        }
+                    }
+                }
+            }
             if let TyKind::Adt(iadt, _) = inner.kind() {
                 if iadt.is_enum() || iadt.is_struct() {
                     if let Ok(ConstValue::Scalar(rustc_middle::mir::interpret::Scalar::Ptr(ptr, _))) = c.eval(tcx, env, span) {
